@@ -12,7 +12,7 @@ Threads: the message pump, the reader of the client's connection (A-READER: one 
 disconnection in three steps; `CreateClient` of the next connection — A-LINK: the websocket server reports the end of a
 connection of an id before it announces the next one, /repo 3413323), time-out goroutines (one per context), and the
 goroutines `signalReadyForDispatch` starts when the slot is taken. One label = one synchronisation operation of the Go
-code after the repairs up to the orphan-on-failed-write repair. Queue objects have identity (`qs`, index = object): a thread that fetched a queue
+code after the repairs up to the orphan-on-failed-write repair (6d71525) and the send lock. Queue objects have identity (`qs`, index = object): a thread that fetched a queue
 before a reconnection keeps using the old object, exactly as the code does.
 
 Abstractions: time (a live context may expire whenever), payloads, `Stop`, the capacities of the wake-up and expiry
@@ -77,6 +77,7 @@ deriving Repr, DecidableEq, Hashable
 structure St where
   tmo    : Bool := true              -- a request timeout is configured
   dropW  : Bool := true              -- the failed-write path drops a request nothing completed (/repo 6d71525); false = before
+  sendLock : Bool := true            -- `Get` + `Push` of a sender exclude `DeleteClient`'s `Remove` (sendMutex); false = before
   cur    : Option Nat := none        -- the queue map's entry for c (index into `qs`)
   qs     : List (List Nat) := []     -- every queue object ever created for c
   pend   : Option Nat := none        -- pending request state of c
@@ -218,7 +219,9 @@ def step (s : St) : Label → Option St
     | .idle => some { s with reader := .got id }
     | _ => none
   | .rstep => readerStep s
-  | .disc => if s.link == .idle && s.cur.isSome then some { s with cur := none, link := .dl2 } else none
+  | .disc =>
+    -- with `sendMutex` the removal waits until no sender is between `Get` and `Push`
+    if s.link == .idle && s.cur.isSome && (!s.sendLock || s.hold.isEmpty) then some { s with cur := none, link := .dl2 } else none
   | .lstep => match s.link with
     | .idle => none
     | .dl2 => some { s with reqs := s.reqs + 1, link := .dl3 }
